@@ -76,6 +76,13 @@ sqf::types::object::object(sqf::runtime::config config, bool is_vehicle) :
 {
 }
 
+// The getters never hand out an empty pointer: an unset slot reads as null object / null group
+std::shared_ptr<sqf::types::d_group> sqf::types::object::group() const { return m_group ? m_group : std::make_shared<d_group>(); }
+std::shared_ptr<sqf::types::d_object> sqf::types::object::parent_object() const { return m_parent_object ? m_parent_object : std::make_shared<d_object>(); }
+std::shared_ptr<sqf::types::d_object> sqf::types::object::driver() const { return m_driver ? m_driver : std::make_shared<d_object>(); }
+std::shared_ptr<sqf::types::d_object> sqf::types::object::gunner() const { return m_gunner ? m_gunner : std::make_shared<d_object>(); }
+std::shared_ptr<sqf::types::d_object> sqf::types::object::commander() const { return m_commander ? m_commander : std::make_shared<d_object>(); }
+
 void sqf::types::object::driver(std::shared_ptr<d_object> val)
 {
     if (m_configuration.has_driver && (val->is_null() || !val->value()->is_vehicle()))
